@@ -51,18 +51,21 @@ func (q bucketQuerier) Select(sortSeries bool, hints *storage.SelectHints, ms ..
 	// the adapter reads [hints.Start, hints.End], not the querier's mint/maxt
 	inner := refQuerier{q.series, hints.Start, hints.End}
 	set := inner.Select(sortSeries, hints, ms...).(*refSet)
-	if hints.Step == 0 || !(c17InstantFuncs[hints.Func] || hints.Func == "") {
+	if hints.Step == 0 || !(c17InstantFuncs[hints.Func] || hints.Func == "") || hints.Range != 0 || 300000%hints.Step != 0 {
 		return set
 	}
+	// the last sample of every step bucket (Start+(k-1)*Step, Start+k*Step], with its own time
 	for i := range set.s {
 		var out []refSample
+		last := int64(0)
 		for _, x := range set.s[i].s {
 			be := (x.t-hints.Start+hints.Step-1)/hints.Step*hints.Step + hints.Start
-			if n := len(out); n > 0 && out[n-1].t == be {
-				out[n-1].v = x.v
+			if n := len(out); n > 0 && last == be {
+				out[n-1] = x
 			} else {
-				out = append(out, refSample{be, x.v})
+				out = append(out, x)
 			}
+			last = be
 		}
 		set.s[i].s = out
 	}
@@ -132,6 +135,10 @@ func c17RunEngineRange(r *h.Result, sc *fakes.Script, c *c17RngCase) error {
 		}
 		if got == bucketed {
 			key = "C17/stepped-bucket-retimed"
+			if strings.Contains(c.Query, ":") {
+				// a selector under a sub-query: the hints do not describe the grid the sub-query evaluates it on
+				key = "C17/stepped-bucket-under-subquery"
+			}
 			if strings.Contains(c.Query, "timestamp(") {
 				key = "C17/stepped-bucket-timestamp"
 			}
@@ -223,7 +230,17 @@ func c17GenEngineRange(rng *h.Rng) c17RngCase {
 	if rng.Chance(20) {
 		off = " offset " + h.Pick(rng, []string{"1s", "3s", "7s", "1m"})
 	}
-	switch rng.Intn(14) {
+	switch rng.Intn(17) {
+	case 16:
+		// an instant-vector function (or a binary operator) between the sub-query and the selector: Func is that
+		// function / "", the step of the hints is the outer interval — not the grid the sub-query evaluates on
+		c.Query = h.Pick(rng, []string{"max_over_time(abs(", "avg_over_time((0 + "}) + sel + off + ")[" + h.Pick(rng, []string{"20s", "30s"}) + ":" + h.Pick(rng, []string{"2s", "5s"}) + "])"
+	case 14:
+		// a range-vector function over a sub-query: the selector is an instant selector (hints.Range = 0) under the name of
+		// a range-vector function
+		c.Query = h.Pick(rng, []string{"max_over_time", "sum_over_time", "count_over_time", "rate", "last_over_time"}) + "(" + sel + off + "[" + h.Pick(rng, []string{"20s", "30s", "1m"}) + ":" + h.Pick(rng, []string{"1s", "2s", "5s"}) + "])"
+	case 15:
+		c.Query = "sum(max_over_time(" + sel + off + "[30s:5s]))"
 	case 0, 1, 2:
 		c.Query = sel + off
 	case 3:
@@ -263,6 +280,8 @@ func c17EngineRangeStream(r *h.Result, rng *h.Rng, n int) error {
 		b, _ := json.Marshal(c.Series)
 		r.Case(fmt.Sprintf("engine-range:%s %d %d %d %s", c.Query, c.Start, c.End, c.Step, b), c.End > c.Start)
 		switch {
+		case strings.Contains(c.Query, ":"+"") && strings.Contains(c.Query, "s])"):
+			r.Count("engine-range:sub-query")
 		case strings.Contains(c.Query, "["):
 			r.Count("engine-range:range-selector")
 		default:
